@@ -45,6 +45,8 @@ def explore(ctx):
             lines.append(G.shutdown_during_backoff(rng, "b%d" % k))
         for k in range({"quick": 12, "thorough": 120, "search": 24}[tier]):
             lines.append(G.shutdown_from_callback(rng, "y%d" % k))
+        for k in range({"quick": 8, "thorough": 80, "search": 16}[tier]):
+            lines.append(G.timeouts_with_slow_dial(rng, "t%d" % k))
         ops = ["dialok", "dialfail", "finalize", "close"]
         depth = {"quick": 5, "thorough": 7, "search": 6}[tier]
         k = 0
